@@ -64,6 +64,11 @@ def Tree.root (h : RBytes → RBytes) : Tree → RBytes
   | .leaf x => h (0 :: x)
   | .branch l r => h (1 :: (l.root h ++ r.root h))
 
+/-- the root over an abstract digest type: `hl` hashes a tagged leaf, `hb` a tagged pair -/
+def Tree.rootG {D : Type} (hl : RBytes → D) (hb : D → D → D) : Tree → D
+  | .leaf x => hl x
+  | .branch l r => hb (l.rootG hl hb) (r.rootG hl hb)
+
 def Tree.leaves : Tree → List RBytes
   | .leaf x => [x]
   | .branch l r => l.leaves ++ r.leaves
